@@ -7,6 +7,8 @@ mod fmt_run;
 mod front;
 mod heap_run;
 mod hir_dump;
+mod hirexpr_dump;
+mod inl_dump;
 mod lex_run;
 mod lir_dump;
 mod lsp_run;
@@ -45,6 +47,8 @@ fn main() {
     "front" => front::main(rest),
     "heap-run" => heap_run::main(rest),
     "hir-dump" => hir_dump::main(rest),
+    "hirexpr-dump" => hirexpr_dump::main(rest),
+    "inl-dump" => inl_dump::main(rest),
     "lex-run" => lex_run::main(rest),
     "lir-dump" => lir_dump::main(rest),
     "lsp-run" => lsp_run::main(rest),
